@@ -18,6 +18,8 @@ import subprocess
 import sys
 import time
 
+import numpy as np
+
 from .. import env, tlc, absstate
 from ..evidence import Check
 
@@ -248,6 +250,13 @@ def collect(run):
             per[int(num)] = seq
         run["chains"] = per
         run["dict_order"] = [int(k) for k in res.keys()]
+        # the data points stored with the trace (what every chain worked on), bit for bit
+        import hashlib
+        try:
+            run["data_digest"] = [hashlib.sha1(np.ascontiguousarray(dp.value).tobytes()).hexdigest()[:16] + ":%r:%r" % (float(dp.outlier_prob), float(dp.outlier_prob_not))
+                                  for dp in res[sorted(res)[0]]["data"]]
+        except Exception:  # noqa - another storage layout: not compared
+            run["data_digest"] = None
     return run
 
 
@@ -256,6 +265,9 @@ def compare(ck, base, other, what):
     if sorted(base["chains"]) != sorted(other["chains"]):
         ck.violation("C18|chain_numbers", "runs hold chains %s vs %s (%s)" % (sorted(base["chains"]), sorted(other["chains"]), what), rep)
         return
+    if base.get("data_digest") and other.get("data_digest") and base["data_digest"] != other["data_digest"]:
+        k = next((i for i, (x, y) in enumerate(zip(base["data_digest"], other["data_digest"])) if x != y), 0)
+        ck.violation("C18|loaded_data_differs|%s" % what, "the data points stored with the trace differ between two runs with the same seed (%s): data point %d is not bit-identical" % (what, k), dict(rep, data_point=k))
     for c in sorted(base["chains"]):
         a, b = base["chains"][c], other["chains"][c]
         ck.evaluations += len(a)
@@ -347,7 +359,8 @@ def run(corrupt=None):
                "order) for 2 chains, 2 settings for 1 chain, 2 settings for a clustered input with --assign-loss-prob (thorough: + 3 proposals x 3 chains); every trace entry of every chain compared bit-for-bit; "
                "non-trivial = each (group, perturbation) comparison")
     ck.assumptions = ["OS scheduling is sampled, not enumerated (the interleavings are exhaustive only in Chains.tla)",
-                      "completion order is read from the run's own 'Finished chain' lines"]
+                      "completion order is read from the run's own 'Finished chain' lines",
+                      "the data points stored with the trace must be bit-identical across runs too: the trace is a deterministic function of them, and last-bit differences there change log_p_one for generic inputs"]
     if corrupt:
         return ck
     return ck.finish()
